@@ -144,6 +144,7 @@ type obs struct {
 	minBig    *big.Int
 	desc, cls string
 	overflow  string
+	envHdr    string // form of the outer (envelope) array header
 }
 
 func applyReenc(sites []space.Site, r reenc) (string, string) {
@@ -167,9 +168,10 @@ func main() {
 	c := vlib.New("C30", "exploration")
 	w := world{NewKey(c.Seed, 1), c.Seed}
 	cfgs := []cfg{{EraShelley, false}, {EraAllegra, false}, {EraMary, false}, {EraAlonzo, false}, {EraBabbage, false}, {EraConway, false}, {EraDijkstra, false}, {EraDijkstra, true}}
-	abs := [][2]uint64{{0, 0}, {44, 155381}, {1 << 32, 1 << 32}, {1 << 63, 1}, {^uint64(0), ^uint64(0)}}
+	// (1, 2^63) and (2^56, 0) put a*size+b into [2^63, 2^64) without overflow (sizes here are 225..260 bytes)
+	abs := [][2]uint64{{0, 0}, {44, 155381}, {1 << 32, 1 << 32}, {1, 1 << 63}, {1 << 56, 0}, {1 << 63, 1}, {^uint64(0), ^uint64(0)}}
 	if c.Thorough() {
-		abs = append(abs, [2]uint64{1, ^uint64(0)}, [2]uint64{1 << 56, 0}, [2]uint64{0, ^uint64(0)}, [2]uint64{1<<64/400 + 1, 5})
+		abs = append(abs, [2]uint64{1, ^uint64(0)}, [2]uint64{0, 1 << 63}, [2]uint64{44, 1<<63 + 12345}, [2]uint64{0, ^uint64(0)}, [2]uint64{1<<64/400 + 1, 5})
 	}
 	var cases []fcase
 	none := reenc{-1, 0, -1, 0}
@@ -230,6 +232,13 @@ func main() {
 		g := tc.G
 		tx, feeNode, sites := w.tree(g)
 		desc, cls := applyReenc(sites, tc.R)
+		envHdr := "minimal"
+		switch tx.Form {
+		case space.Form1, space.Form2, space.Form4, space.Form8:
+			envHdr = "non-minimal-definite"
+		case space.FormIndef:
+			envHdr = "indefinite"
+		}
 		fn := eraFns(g.Era)
 		in := MkIn(int(w.seed)+1, 0)
 		// evaluate one fully specified transaction
@@ -237,7 +246,7 @@ func main() {
 			feeNode.Arg, feeNode.Form = fee, form
 			resign(tx, w.key)
 			raw := tx.Encode()
-			o := obs{Fee: fmt.Sprint(fee), L: len(raw), Cbor: fmt.Sprintf("%x", raw), feeBig: bu(fee), desc: desc, cls: cls, MaxTxSize: maxSize}
+			o := obs{Fee: fmt.Sprint(fee), L: len(raw), Cbor: fmt.Sprintf("%x", raw), feeBig: bu(fee), desc: desc, cls: cls, MaxTxSize: maxSize, envHdr: envHdr}
 			dtx, err := decode(g.Era, raw)
 			if err != nil {
 				o.DecodeErr = err.Error()
@@ -332,6 +341,10 @@ func main() {
 			var fees []uint64
 			if min.Cmp(two64) < 0 {
 				m := min.Uint64()
+				if m >= 1<<63 {
+					// minimum in [2^63, 2^64): also the fees a sign-wrapped minimum would let through
+					fees = append(fees, 0, 1)
+				}
 				if m > 0 {
 					fees = append(fees, m-1)
 				}
@@ -440,31 +453,46 @@ func main() {
 			if tc.G.Era == EraConway && tc.A == 44 && tc.R.S1 >= 0 && tc.R.S2 < 0 && (tc.R.S1 == 0 || tc.R.S1 == 3) && tc.R.F1 == space.FormIndef || tc.Canon && tc.A == 44 && tc.G.Era == EraShelley || tc.A == 1<<63 && tc.R.S1 < 0 && !tc.Canon && tc.G.Era == EraBabbage && pos == "fee<<min" {
 				c.Sample(replay)
 			}
-			k := fmt.Sprintf("%s|orig=%s|%s", tc.G.name(), origClass, o.overflow)
-			if below && (o.DirectAcc || o.ListAcc) {
-				where := "rule+list"
-				if !o.DirectAcc {
-					where = "list-only"
-				} else if !o.ListAcc {
-					where = "rule-only"
-				}
-				c.Violation("minfee|"+where+"|"+k+"|accepted-below-min", fmt.Sprintf("%s: fee %s < a*size+b = %s (a=%d b=%d, original length %d) accepted (fee rule accepts=%v, rule list accepts=%v)", o.desc, o.Fee, o.Min, tc.A, tc.B, o.L, o.DirectAcc, o.ListAcc), replay)
+			k := fmt.Sprintf("%s|orig=%s|envelope-header=%s|%s", tc.G.name(), origClass, o.envHdr, o.overflow)
+			fits := o.minBig.Cmp(two64) < 0
+			// the minimum the library computes must equal the reference (the property defines size and minimum)
+			minWrong := ""
+			switch {
+			case !fits && o.MinFeeErr == "":
+				minWrong = "overflow-not-reported"
+				c.Violation("MinFeeTx|"+k+"|overflow-not-reported", fmt.Sprintf("%s: a*size+b = %s exceeds 64 bits but MinFeeTx returned %d without error", o.desc, o.Min, o.MinFeeVal), replay)
+			case !fits:
+			case o.MinFeeErr != "":
+				minWrong = "error-without-overflow"
+				c.Violation("MinFeeTx|"+k+"|error-without-overflow", fmt.Sprintf("%s: a*size+b = %s fits 64 bits but MinFeeTx failed: %s", o.desc, o.Min, o.MinFeeErr), replay)
+			case bu(o.MinFeeVal).Cmp(o.minBig) < 0:
+				minWrong = "understated"
+				c.Violation("MinFeeTx|"+k+"|understated", fmt.Sprintf("%s: MinFeeTx = %d < a*size+b = %s (a=%d b=%d, original length %d)", o.desc, o.MinFeeVal, o.Min, tc.A, tc.B, o.L), replay)
+			case bu(o.MinFeeVal).Cmp(o.minBig) > 0:
+				minWrong = "overstated"
+				c.Violation("MinFeeTx|"+k+"|overstated", fmt.Sprintf("%s: MinFeeTx = %d > a*size+b = %s (a=%d b=%d, original length %d)", o.desc, o.MinFeeVal, o.Min, tc.A, tc.B, o.L), replay)
 			}
-			if !below && !o.ListAcc {
-				c.Add("fee>=min_but_rejected(converse,not_a_violation)", 1)
-			}
-			// MinFeeTx
-			if o.minBig.Cmp(two64) >= 0 {
-				if o.MinFeeErr == "" {
-					c.Violation("MinFeeTx|"+k+"|overflow-not-reported", fmt.Sprintf("a*size+b = %s exceeds 64 bits but MinFeeTx returned %d without error", o.Min, o.MinFeeVal), replay)
+			where := func(ruleBad, listBad bool) string {
+				switch {
+				case ruleBad && listBad:
+					return "rule+list"
+				case ruleBad:
+					return "rule-only"
 				}
-			} else if o.MinFeeErr != "" {
-				c.Add("MinFeeTx_error_without_overflow(converse,not_a_violation)", 1)
-			} else if bu(o.MinFeeVal).Cmp(o.minBig) < 0 {
-				c.Violation("MinFeeTx|"+k+"|understated", fmt.Sprintf("MinFeeTx = %d < a*size+b = %s (original length %d)", o.MinFeeVal, o.Min, o.L), replay)
-			} else if bu(o.MinFeeVal).Cmp(o.minBig) > 0 {
-				c.Add("MinFeeTx_overstated(converse,not_a_violation)", 1)
-				c.Add("MinFeeTx_overstated:"+tc.G.name()+":"+o.cls, 1)
+				return "list-only"
+			}
+			// acceptance: fee < min must be rejected, fee >= min must be accepted (boundary included).
+			// A wrong acceptance that merely follows a wrong MinFeeTx value is the same root cause and is
+			// not keyed a second time, except when the minimum is right and the comparison is wrong.
+			if below && (o.DirectAcc || o.ListAcc) && minWrong != "understated" && minWrong != "overflow-not-reported" {
+				c.Violation("minfee|"+where(o.DirectAcc, o.ListAcc)+"|"+k+"|accepted-below-min", fmt.Sprintf("%s: fee %s < a*size+b = %s (a=%d b=%d, original length %d) accepted although MinFeeTx does not under-state the minimum (MinFeeTx=%d; fee rule accepts=%v, rule list accepts=%v)", o.desc, o.Fee, o.Min, tc.A, tc.B, o.L, o.MinFeeVal, o.DirectAcc, o.ListAcc), replay)
+			} else if below && (o.DirectAcc || o.ListAcc) {
+				c.Add("accepted_below_min_following_a_wrong_MinFeeTx(keyed_once)", 1)
+			}
+			if !below && (!o.DirectAcc || !o.ListAcc) && minWrong != "overstated" && minWrong != "error-without-overflow" {
+				c.Violation("minfee|"+where(!o.DirectAcc, !o.ListAcc)+"|"+k+"|rejected-at-or-above-min", fmt.Sprintf("%s: fee %s >= a*size+b = %s (a=%d b=%d, original length %d) rejected (fee rule: %q; list: %v)", o.desc, o.Fee, o.Min, tc.A, tc.B, o.L, o.DirectErr, o.ListRej), replay)
+			} else if !below && (!o.DirectAcc || !o.ListAcc) {
+				c.Add("rejected_at_or_above_min_following_a_wrong_MinFeeTx(keyed_once)", 1)
 			}
 		}
 	}
